@@ -35,6 +35,8 @@ def words_for(sch):
     w.insert(len(w) - 7, b"'a\\\nb'")
     w.insert(len(w) - 7, b"'a\nb'")
     w.insert(len(w) - 7, b'"a\\\nb"')
+    w.insert(len(w) - 7, b'"a\n\\9"')
+    w.insert(len(w) - 7, b"'a\nb")
     return w
 
 
